@@ -16,8 +16,10 @@ LEVEL = 'exploration'
 DESIGN_REF = 'DESIGN.md section 5, C17'
 RULE = (
     'tracer-extended scripted models (per-pass outcome scripts incl. moves, non-finite values, warnings, exceptions, '
-    'hook exceptions, offsets) driven by histories of 1-3 calls (solve / solve_period / solve_t, repeated solves of the '
-    'same period with the same or different trace arguments) x trace in {None, False, True, list, tuple, single name} x '
+    'hook exceptions, offsets, passes that replace a series through a whole-list assignment) driven by histories of 1-3 '
+    'calls (solve / solve_period / solve_t, repeated solves of the same period with the same or different trace arguments, '
+    'optionally preceded by whole-series assignments (setattr / setitem / replace_values, list or ndarray) or by replacing '
+    'the model with its copy()/copy.copy/copy.deepcopy) x trace in {None, False, True, list, tuple, single name} x '
     'the option lattice; an untraced twin receives the same calls without trace. Oracle: differential (values, statuses, '
     'iterations, return values, exception types, call logs identical after every call); trace falsy => every Trace '
     'empty; the labels appended by each call are start, before, 0, 1..k[, end] as reconstructed from the untraced twin '
@@ -47,12 +49,36 @@ def make(case):
             X=np.array([0.5 * i for i in range(n)]))
     scripted.arm(m, case.get('script'), case.get('hooks'))
     m.__dict__['_calls'] = []
+    return wire(m)
 
+
+def wire(m):
     def solve_t(t, *args, _m=m, **kwargs):
         _m.__dict__['_calls'].append(t + len(_m.span) if t < 0 else t)
         return type(_m).solve_t(_m, t, *args, **kwargs)
     m.__dict__['solve_t'] = solve_t
     return m
+
+
+def apply_pre(model, op):
+    """Between-call mutations through the public API; the same operation is applied to the traced model and its twin."""
+    import copy as _copy
+    kind = op[0]
+    if kind == 'copy':
+        route = op[1]
+        new = model.copy() if route == 'copy' else (_copy.copy(model) if route == 'copy.copy' else _copy.deepcopy(model))
+        return wire(new)           # the recording wrapper is per instance: re-attach it to the copy
+    _, name, route, delta = op
+    new = [float(v) + delta for v in model[name]]
+    if route == 'setattr':
+        setattr(model, name, new)          # a Sequence operand replaces the stored array object
+    elif route == 'setitem':
+        model[name] = new
+    elif route == 'replace_values':
+        model.replace_values(**{name: new})
+    elif route == 'ndarray':
+        setattr(model, name, np.array(new))
+    return model
 
 
 def names_for(trace, model):
@@ -92,6 +118,9 @@ def check_case(case):
         tr = c.get('trace')
         if isinstance(tr, dict):
             tr = tuple(tr['tuple'])
+        for op in c.get('pre') or ():
+            T_, U_ = apply_pre(T_, op), apply_pre(U_, op)
+            nontrivial = True
         before_cells = [{nm: float(U_[nm][p]) for nm in VARS} for p in range(n)]
         before_trace = trace_state(T_)
         vals_mark = len(U_.__dict__['_vals'])
@@ -186,7 +215,11 @@ def strategy():
     from hypothesis import strategies as st
     n = 3
     tok = st.sampled_from(['same', ['move', 1.0], ['move', 0.25], ['move', 0.125], ['set', 'nan'], ['set', 'inf'], 'warn',
-                           ['raise', 'ZeroDivisionError'], ['set', 2.0], ['move', 1.0], ['move', 0.25]])
+                           ['raise', 'ZeroDivisionError'], ['set', 2.0], ['move', 1.0], ['move', 0.25], ['rebind', 1.0]])
+    pre = st.lists(st.one_of(
+        st.tuples(st.just('copy'), st.sampled_from(['copy', 'copy.copy', 'copy.deepcopy'])).map(list),
+        st.tuples(st.just('assign'), st.sampled_from(VARS), st.sampled_from(['setattr', 'setitem', 'replace_values', 'ndarray']),
+                  st.sampled_from([1.0, -2.5, 0.0])).map(list)), max_size=2)
     passes = st.dictionaries(st.tuples(st.integers(0, n - 1), st.integers(1, 4)).map(lambda x: f'{x[0]}:{x[1]}'),
                              st.lists(st.tuples(st.sampled_from(['A', 'B']), tok).map(list), min_size=1, max_size=2, unique_by=lambda x: x[0]),
                              max_size=6)
@@ -212,6 +245,8 @@ def strategy():
                 c['trace'] = tr
             if c['entry'] == 'solve_period' and c['t'] < 0:
                 c['t'] = n + c['t']
+            if draw(st.integers(0, 3)) == 0:
+                c['pre'] = draw(pre)
             calls.append(c)
         hooks = draw(st.sampled_from([None, None, None, {'before': 'KeyError'}, {'after': 'ValueError'}, {'after': 'ZeroDivisionError'}]))
         return {'n': n, 'script': draw(passes), 'hooks': hooks, 'calls': calls,
@@ -238,6 +273,10 @@ def gen_basic():
                                 yield {'n': 3, 'script': script, 'hooks': {'before': 'ValueError'}, 'calls': [c]}
                             yield {'n': 3, 'script': script, 'calls': [c, c]}
                             yield {'n': 3, 'script': script, 'calls': [c, dict(c, entry='solve_t'), c]}
+                            if max_iter == moves + 1 and failures == 'raise':
+                                for pre in (['copy', 'copy'], ['copy', 'copy.deepcopy'], ['assign', 'A', 'setattr', 1.0],
+                                            ['assign', 'X', 'replace_values', -2.5], ['assign', 'B', 'setitem', 1.0]):
+                                    yield {'n': 3, 'script': script, 'calls': [c, dict(c, pre=[pre])]}
     return gen
 
 
